@@ -470,7 +470,7 @@ func (g *G) CustomAttribute(a kmip.Attribute) kmip.Attribute {
 		a.AttributeName = kmip.AttributeName("Vendor " + g.asciiWord()) // unknown, not custom-prefixed
 	}
 	g.cover("attr:custom")
-	switch r.Intn(12) {
+	switch r.Intn(11) {
 	case 0:
 		a.AttributeValue = g.Text()
 	case 1:
@@ -487,9 +487,9 @@ func (g *G) CustomAttribute(a kmip.Attribute) kmip.Attribute {
 		a.AttributeValue = g.Interval()
 	case 7:
 		a.AttributeValue = r.BigEdge()
-	case 8:
-		a.AttributeValue = kmip.State(1 + r.Intn(6))
 	default:
+		// (typed enumerations are not used for custom attributes: their value names have no
+		// scope a reader could resolve; enumerations travel as ttlv.Enum inside a ttlv.Value)
 		v := g.GenericValue(2)
 		v.Tag = kmip.TagAttributeValue
 		a.AttributeValue = v
